@@ -57,6 +57,50 @@ theorem edit_updates_same_note (basePath : Str) (dirs : List Str) (stem : Str)
       = keyOfFile dirs (stem ++ ".md".toList) :=
   url_key_roundtrip_partial basePath _ (endsMd_keyOfFile dirs stem hstem) hpre
 
+/-- **go-to-definition opens the file of the note the link resolves to**: the path segments of the URI
+answered for a link met in a note of directory `D` (the base's segments `B`, then what `Url::join`
+makes of `D` followed by the link's components `u`) are the base's segments followed by the components
+of the key that link resolution (`join_normalized`, C15) gives for the same link — whenever that key does
+not climb above the library root.  So the URI in the response and the backlink index name the same note. -/
+theorem definition_resolution_agrees (B D : List Str) (u : List Comp)
+    (hroot : Comp.parent ∉ joinNormalized (D.map Comp.normal) u) :
+    urlResolve B (D.map Comp.normal ++ u) = B ++ (joinNormalized (D.map Comp.normal) u).map compStr := by
+  unfold urlResolve joinNormalized at *
+  rw [trav_normals D []] at hroot ⊢
+  rw [List.append_nil] at hroot ⊢
+  have hroot' : Comp.parent ∉ trav (D.map Comp.normal).reverse u := by
+    intro h; exact hroot (List.mem_reverse.2 h)
+  have hst : ∀ c ∈ (D.map Comp.normal).reverse, ∃ n, c = Comp.normal n := by
+    intro c hc
+    obtain ⟨n, _, rfl⟩ := List.mem_map.1 (List.mem_reverse.1 hc)
+    exact ⟨n, rfl⟩
+  have h1 : (D.map Comp.normal).foldl urlStep B.reverse = (D.map Comp.normal).reverse.map compStr ++ B.reverse := by
+    have := urlTrav_eq B.reverse (D.map Comp.normal) [] (by simp) (by
+      rw [trav_normals D []]
+      intro h
+      rw [List.append_nil] at h
+      obtain ⟨n, _, hn⟩ := List.mem_map.1 (List.mem_reverse.1 h)
+      cases hn)
+    rw [trav_normals D []] at this
+    simpa using this
+  rw [List.foldl_append, h1, urlTrav_eq B.reverse u _ hst hroot']
+  simp
+
+/-- above the library root the two part ways (finding D15's neighbourhood): link resolution keeps the
+`..`, the URL stays at the root of the file system -/
+theorem definition_above_root_counterexample :
+    urlResolve [] ([Comp.parent, Comp.normal "x".toList]) = ["x".toList]
+    ∧ joinNormalized [] [Comp.parent, Comp.normal "x".toList] = [Comp.parent, Comp.normal "x".toList] := by
+  decide
+
+/-- non-vacuity, at the level of strings (kernel-evaluated): from note `d/e/n` the link `../x` opens
+`<base>/d/x.md`, the file of the key `d/x` that the link resolves to -/
+example :
+    definitionTarget "/home/u/notes".toList "d/e/n".toList "../x".toList = "file:///home/u/notes/d/x.md".toList
+    ∧ fromRelLinkUrl "../x".toList (parent "d/e/n".toList) = "d/x".toList
+    ∧ keyToUrl (baseOf "/home/u/notes".toList) "d/x".toList = "file:///home/u/notes/d/x.md".toList := by
+  decide
+
 /-- **finding D15, `x.md.md`**: the file `x.md.md` gets key `x` and is written back to `x.md` -/
 theorem md_md_counterexample :
     pathOfKey (keyOfFile [] "x.md.md".toList) = "x.md".toList := by
